@@ -356,6 +356,24 @@ pub fn gen_c07(out: &mut impl Write, seed: u64, thorough: bool) {
                 }
             }
         }
+        // Argon2id parallelism > 1 (RustCrypto back ends; libsodium's restriction to p = 1 is a recorded finding): library-built
+        // blobs must be reproduced by the model, and specification-built blobs must be accepted
+        if be == Be::V2 || be == Be::V4 {
+            for (mem, t, par) in [(32u64 * 1024, 1u32, 2u32), (64 * 1024, 2, 4), (24 * 1024, 1, 3)] {
+                let mut params = mem.to_be_bytes().to_vec();
+                params.extend(t.to_be_bytes());
+                params.extend(par.to_be_bytes());
+                for k in kinds() {
+                    let key = some_key(be, k, &mut r, &mut cache);
+                    let c = canon(be, k, &key);
+                    let pass = r.bytes_in(1, 12);
+                    if let Some(s) = pw_wrap(be, k, &pass, &key, &params) {
+                        writeln!(out, "pw.re {} {} {} {}", be.name(), k.name(), hex(&pass), hex(s.as_bytes())).unwrap();
+                    }
+                    writeln!(out, "m.pw.wrap {} {} {} {} {} {} {} | pw.open {} {} {} $ want=ok:{}", be.name(), k.name(), hex(&pass), hex(&r.bytes(salt_len)), hex(&params), hex(&r.bytes(nonce_len_pw)), hex(&c), be.name(), k.name(), hex(&pass), hex(&c)).unwrap();
+                }
+            }
+        }
         // whatever a back end agrees to wrap (own randomness, any parameter block it accepts) must unwrap on every back end
         // of the version: parameters outside the siblings' common domain included (parallelism 2, memory not a multiple of 1 MiB / 1 KiB)
         for k in kinds() {
@@ -482,6 +500,25 @@ pub fn gen_c08(out: &mut impl Write, seed: u64, thorough: bool) {
                 if be == Be::V1 && matches!(k, Kind::PkeSecret | Kind::PkePublic) { continue; }
                 writeln!(out, "key.dec {} {} {}", be.name(), k.name(), hex(raw)).unwrap();
                 writeln!(out, "o.key {} {} {}", be.name(), k.name(), hex(raw)).unwrap();
+                // a valid encoding with bytes appended / prepended / removed / doubled is a different (wrong-length) string
+                let mut variants: Vec<Vec<u8>> = vec![];
+                for extra in [vec![0u8], vec![0xff], r.bytes(1), r.bytes(16), raw.to_vec()] {
+                    let mut v = raw.to_vec(); v.extend(&extra); variants.push(v);
+                    let mut w = extra.clone(); w.extend(raw.iter()); variants.push(w);
+                }
+                variants.push(raw[..raw.len() - 1].to_vec());
+                variants.push(raw[1..].to_vec());
+                for v in variants {
+                    writeln!(out, "key.dec {} {} {}", be.name(), k.name(), hex(&v)).unwrap();
+                }
+            }
+            {
+                let lk0 = r.bytes(32);
+                for extra in [vec![0u8], r.bytes(1), r.bytes(32)] {
+                    let mut v = lk0.clone(); v.extend(&extra);
+                    writeln!(out, "key.dec {} local {}", be.name(), hex(&v)).unwrap();
+                }
+                writeln!(out, "key.dec {} local {}", be.name(), hex(&lk0[..31])).unwrap();
             }
             writeln!(out, "key.pub {} {}", be.name(), hex(&sk)).unwrap();
             writeln!(out, "o.keypair {} {}", be.name(), hex(&sk)).unwrap();
